@@ -156,12 +156,17 @@ class EpisodeMonitor:
                         self.fail("C11", f"call {op}: entry judged valid but exec={o['execs']}")
                     if o["check"][0][1] != key:
                         self.fail("C11", f"call {op}: invalidate_on consulted with another key")
-            # bookkeeping of "last execution left nothing cached"
+            # bookkeeping of "last execution left nothing cached": the body ran after a MISSED lookup (not after a
+            # hit judged stale by invalidate_on — then the old entry legitimately stays when the fresh result
+            # is not stored) and its result was not stored
             if o["execs"] == 1:
                 stored = (ci if s["cache_if"] else True)
                 if s["is_result"] and not (s["is_async"] and s["cache_if"]):
                     stored = stored and o["wok"]
-                self.rejected[(inst, key)] = not stored
+                if o["check"]:
+                    self.rejected.pop((inst, key), None)
+                else:
+                    self.rejected[(inst, key)] = not stored
             # C14: a thread-scope call touches only its own thread's instance
             if prev is not None:
                 for lbl, d in dumps.items():
